@@ -461,6 +461,85 @@ func (w *world) genTables() string {
 	}
 	fmt.Fprintf(&sb, "def metas : List PduMeta := %s\n\n", leanList(metas, "  "))
 	fmt.Fprintf(&sb, "def dispatchers : List Dispatcher := %s\n\n", leanList(w.dispatchers(), "  "))
+	sb.WriteString(w.genLookupTables())
 	sb.WriteString("end SmsVerif.Gen\n")
+	return sb.String()
+}
+
+// mapLiteral renders a package-level `var name = map[K]V{...}` of integer/rune constants as a Lean list of pairs,
+// in source order.
+func (w *world) mapLiteral(pkgPath, name string) (string, bool) {
+	p := w.pkgs[pkgPath]
+	if p == nil {
+		return "", false
+	}
+	for _, f := range p.Syntax {
+		for _, d := range f.Decls {
+			gd, ok := d.(*ast.GenDecl)
+			if !ok || gd.Tok != token.VAR {
+				continue
+			}
+			for _, sp := range gd.Specs {
+				vs := sp.(*ast.ValueSpec)
+				for i, nm := range vs.Names {
+					if nm.Name != name || i >= len(vs.Values) {
+						continue
+					}
+					cl, ok := vs.Values[i].(*ast.CompositeLit)
+					if !ok {
+						return "", false
+					}
+					var rows []string
+					for _, el := range cl.Elts {
+						kv, ok := el.(*ast.KeyValueExpr)
+						if !ok {
+							return "", false
+						}
+						k, ok1 := constU64(p.TypesInfo, kv.Key)
+						v, ok2 := constU64(p.TypesInfo, kv.Value)
+						if !ok1 || !ok2 {
+							return "", false
+						}
+						rows = append(rows, fmt.Sprintf("(%d, %d)", k, v))
+					}
+					return "[" + strings.Join(rows, ", ") + "]", true
+				}
+			}
+		}
+	}
+	return "", false
+}
+
+func (w *world) constValue(pkgPath, name string) (uint64, bool) {
+	p := w.pkgs[pkgPath]
+	if p == nil {
+		return 0, false
+	}
+	if c, ok := p.Types.Scope().Lookup(name).(*types.Const); ok && c.Val().Kind() == constant.Int {
+		return constant.Uint64Val(c.Val())
+	}
+	return 0, false
+}
+
+func (w *world) genLookupTables() string {
+	var sb strings.Builder
+	gsm := modPath + "/datacoding/gsm7encoding"
+	for _, n := range []string{"forwardLookup", "forwardEscape", "reverseLookup", "reverseEscape"} {
+		if l, ok := w.mapLiteral(gsm, n); ok {
+			fmt.Fprintf(&sb, "/-- `gsm7encoding.%s` -/\ndef gsm_%s : List (Nat × Nat) := %s\n\n", n, n, l)
+		} else {
+			fmt.Fprintf(&sb, "def gsm_%s : List (Nat × Nat) := [] -- NOT EXTRACTED\n\n", n)
+		}
+	}
+	if v, ok := w.constValue(gsm, "EscapeSequence"); ok {
+		fmt.Fprintf(&sb, "def gsm_escape : Nat := %d\n\n", v)
+	}
+	dc := modPath + "/datacoding"
+	for _, n := range []string{"UDHILength", "MaxLongSmsLength", "MaxGSM7Length", "SplitBy134", "SplitBy153"} {
+		if v, ok := w.constValue(dc, n); ok {
+			fmt.Fprintf(&sb, "def dc_%s : Nat := %d\n", n, v)
+		}
+	}
+	sb.WriteString("\n")
 	return sb.String()
 }
